@@ -34,23 +34,35 @@ pub struct ChannelClosed;
 impl<T> Sender<T> {
     pub fn send(&mut self, value: T) -> Result<(), ChannelFull> {
         while let Some(value) = self.pending_messages.pop() {
+            #[cfg(fastrace_verif)]
+            crate::verif::hook(|| crate::verif::Site::BeforePush { free: self.tx.slots(), pending: self.pending_messages.len() + 1 });
             if let Err(PushError::Full(value)) = self.tx.push(value) {
                 self.pending_messages.push(value);
+                #[cfg(fastrace_verif)]
+                crate::verif::hook(|| crate::verif::Site::PushOutcome { ok: false });
                 return Err(ChannelFull);
             }
         }
 
+        #[cfg(fastrace_verif)]
+        crate::verif::hook(|| crate::verif::Site::BeforePush { free: self.tx.slots(), pending: 0 });
+        #[cfg(fastrace_verif)]
+        crate::verif::hook(|| crate::verif::Site::PushOutcome { ok: !self.tx.is_full() });
         self.tx.push(value).map_err(|_| ChannelFull)
     }
 
     pub fn force_send(&mut self, value: T) {
         while let Some(value) = self.pending_messages.pop() {
+            #[cfg(fastrace_verif)]
+            crate::verif::hook(|| crate::verif::Site::BeforePush { free: self.tx.slots(), pending: self.pending_messages.len() + 1 });
             if let Err(PushError::Full(value)) = self.tx.push(value) {
                 self.pending_messages.push(value);
                 break;
             }
         }
 
+        #[cfg(fastrace_verif)]
+        crate::verif::hook(|| crate::verif::Site::BeforePush { free: self.tx.slots(), pending: self.pending_messages.len() });
         if let Err(PushError::Full(value)) = self.tx.push(value) {
             self.pending_messages.push(value);
         }
@@ -69,6 +81,14 @@ impl<T> Receiver<T> {
     pub fn try_recv(&mut self) -> Result<Option<T>, ChannelClosed> {
         match self.rx.pop() {
             Ok(val) => Ok(Some(val)),
+            #[cfg(fastrace_verif)]
+            Err(_) if {
+                crate::verif::hook(|| crate::verif::Site::RecvEmpty);
+                false
+            } =>
+            {
+                unreachable!()
+            }
             Err(_) if self.rx.is_abandoned() => Err(ChannelClosed),
             Err(_) => Ok(None),
         }
